@@ -552,6 +552,16 @@ pub fn run_c06(tier: Tier) -> i32 {
         ]),
         "C06",
     ));
+    // fallback votes in the mix: a validator that notarized b adds a notar-fallback vote for the
+    // leading block a, a late notar vote for a follows, then a skip - "the most-voted block's notar
+    // stake" must stay the notar stake alone (safe-to-skip is due exactly at 40 %)
+    fams.push(PoolSlotSys::new(
+        "T5-fallback-votes-for-the-leading-block-before-a-late-notar-vote",
+        t5.clone(),
+        0,
+        cat(vec![votes(N, 1, 0, &[0, 2]), votes(N, 1, 1, &[1]), votes(NF, 1, 0, &[1]), votes(S, 1, 0, &[3]), votes(SF, 1, 0, &[4]), vec![block(1, 0, 0, 0), block(1, 1, 0, 0)]]),
+        "C06",
+    ));
     fams.push(PoolSlotSys::new(
         "X3-thresholds-from-below",
         x3.clone(),
